@@ -320,6 +320,7 @@ class Pairing:
         self.indications_seen = 0
         self.notifications_seen = 0
         self.max_server_pdu = 0
+        self.key_class = ''             # class of the request being judged (set by the harness), part of MTU keys
         self.stats = collections.Counter()
 
     # -- feeding --------------------------------------------------------------
@@ -347,7 +348,7 @@ class Pairing:
         r.ev('mtu_checks')
         r.ev('oracle_evals')
         if len(pdu) > self.mtu:
-            r.bad(f'pairing/mtu-exceeded/{opname(op)}/{self.kind}',
+            r.bad(f'pairing/mtu-exceeded/{opname(op)}/{self.kind}' + (f'/{self.key_class}' if self.key_class else ''),
                   f'server PDU {opname(op)} of {len(pdu)} bytes with ATT_MTU {self.mtu}; {ctx}; '
                   f'pdu={pdu[:24].hex()}..')
         if len(pdu) == self.mtu:
